@@ -509,7 +509,7 @@ def evaluate_files(ctx, cases):
                     if text != r['model']:
                         ctx.fail('C06|multi|fvar|model', f'str(FVARs) with {len(vals)} values differs from the model renderFvars',
                                  dict(payload, expected=r['model'], actual=text), kind='correspondence')
-                    if vals and not r['lines_ok']:
+                    if vals and not r['lines_ok'] and not ctx.broken:
                         raise RuntimeError('model violates fvar_lines_valid')
                 elif k == 'sfac':
                     els, text = st['sfac']
@@ -526,7 +526,7 @@ def evaluate(ctx, cases, stream=None):
         # the decidable statement `consts_ok` of ShelxProps/C06.lean, evaluated on the extracted constants
         ctx.consts_ok = (len(k['sep']) + k['width'] + 2 <= COLS and k['short'] <= COLS and len(k['indent']) < k['width'] and
                          k['suffix'] == ' =\n' and k['sep'] == ' ' and set(k['indent']) <= {' '} and not k['drop_whitespace'] and
-                         not k['break_on_hyphens'] and k['break_long_words'])
+                         not k['break_on_hyphens'] and k['break_long_words']) and not ctx.broken
     lines = [c for c in cases if c.get('kind') == 'line']
     files = [c for c in cases if c.get('kind') == 'file']
     if lines:
